@@ -1,4 +1,5 @@
 import MxModel.Proofs.CalcAnc
+import MxModel.Proofs.CalcValued
 /-!
 # C16 – Memory-optimised runs: the plan made by `get_calcsteps`
 
@@ -536,6 +537,140 @@ theorem generate_plan_execute_failed_before_77e9cc3 :
       rw [show calculated demoPreds (8 + 1) [4] usedCache = [] from by decide])
     (by decide) (by decide) 4 (by decide)
   revert this; decide
+
+/-! ## Values: the paste / clear discipline never looks at a value – a held `None` is a held value
+
+`VCache V` (Kernels/CalcSteps.lean) is the cache with the cells' `data` dictionaries, element ↦ value, over
+ANY value domain `V` – e.g. `Option Nat` with the distinguished `none` an element of a cells with
+`allow_none=True` holds; `f n vs` is the value the formula of `n` returns when its callees returned `vs`.
+`'paste'` reads the value of each node (`get_value_from_key`) and assigns it back (`set_value_from_key`)
+whatever it is; `'clear'` clears.  Forgetting the values (`VCache.erase`) commutes with every action, so
+the theorems above hold verbatim for models with values, whatever the values are. -/
+
+/-- **value_agnostic_execute** For every value domain, every valuation of the formulas, every action
+list (a plan or not), every call-depth bound and every valued cache: running the actions with values
+and forgetting them afterwards is running them on the value-free cache.  Which elements are held, which
+are marked as inputs, the trace graph and the order of formula executions never depend on a value. -/
+theorem value_agnostic_execute {V : Type} [Inhabited V] (f : Node → List (Option V) → V)
+    (preds : Node → List Node) (fuel : Nat) (actions : List Action) (c : VCache V) :
+    (executeV f preds fuel actions c).erase = execute preds fuel actions c.erase :=
+  erase_executeV f preds fuel actions c
+
+/-- … in particular two programs with the same call structure but different values – say one in which
+some elements evaluate to `None`, over `Option W`, and one in which none does – hold, paste, clear and
+compute exactly the same elements at every point of the same action list. -/
+theorem held_elements_independent_of_values {V W : Type} [Inhabited V] [Inhabited W]
+    (f : Node → List (Option V) → V) (g : Node → List (Option W) → W)
+    (preds : Node → List Node) (fuel : Nat) (actions : List Action) (c : VCache V) (d : VCache W)
+    (h : c.erase = d.erase) :
+    (executeV f preds fuel actions c).erase = (executeV g preds fuel actions d).erase := by
+  rw [erase_executeV, erase_executeV, h]
+
+/-- **run_correct_any_values** `run_correct` for models with values: every value domain (with or without
+a distinguished `None`), every valuation; every topological order of distinct nodes, target list, step
+size `≥ 1`, call-depth bound `≥ 1`, program whose calls stay inside the plan.  After the run the `data`
+dictionaries have entries for exactly the targets – whatever their values –, all value-pasted; the trace
+graph is empty; the formulas that ran are the planned elements, each once, in the planned order. -/
+theorem run_correct_any_values {V : Type} [Inhabited V] (f : Node → List (Option V) → V)
+    (ordered : List Node) (succs preds : Node → List Node) (targets : List Node)
+    (size fuel : Nat) (hz : 1 ≤ size) (ht : isTopo succs ordered = true) (hd : ordered.Nodup)
+    (hp : ∀ n ∈ ordered, ∀ p ∈ preds n, p ∈ ordered ∧ n ∈ succs p) :
+    (∀ x, x ∈ (executeV f preds (fuel + 1) (calcSteps ordered succs targets size) {}).data.map (·.1) ↔
+        x ∈ targets ∧ x ∈ ordered) ∧
+    (∀ x, x ∈ (executeV f preds (fuel + 1) (calcSteps ordered succs targets size) {}).inputs ↔
+        x ∈ (executeV f preds (fuel + 1) (calcSteps ordered succs targets size) {}).data.map (·.1)) ∧
+    (executeV f preds (fuel + 1) (calcSteps ordered succs targets size) {}).edges = [] ∧
+    (executeV f preds (fuel + 1) (calcSteps ordered succs targets size) {}).log = ordered := by
+  have e : (executeV f preds (fuel + 1) (calcSteps ordered succs targets size) ({} : VCache V)).erase =
+      execute preds (fuel + 1) (calcSteps ordered succs targets size) {} :=
+    erase_executeV f preds (fuel + 1) _ {}
+  have r := run_correct ordered succs preds targets size fuel hz ht hd hp
+  rw [← e] at r
+  exact r
+
+/-- **run_correct_from_any_values** the same from ANY valued cache whose elements and trace edges are as in
+`run_correct_from_any` (well-formed; no held element is planned, no trace edge starts at a planned element;
+calls go to planned elements or to held ones) – user inputs and calculated values, `None` among them or
+not: what was held stays held, the targets are added, value-pasted; the planned elements ran once each. -/
+theorem run_correct_from_any_values {V : Type} [Inhabited V] (f : Node → List (Option V) → V)
+    (ordered : List Node) (succs preds : Node → List Node) (targets : List Node)
+    (size fuel : Nat) (c0 : VCache V) (hz : 1 ≤ size) (ht : isTopo succs ordered = true) (hd : ordered.Nodup)
+    (h0 : c0.erase.WF) (h0d : ∀ x ∈ c0.data.map (·.1), x ∉ ordered) (h0e : ∀ e ∈ c0.edges, e.1 ∉ ordered)
+    (hp : ∀ n ∈ ordered, ∀ p ∈ preds n, (p ∈ ordered ∧ n ∈ succs p) ∨ p ∈ c0.data.map (·.1)) :
+    (∀ x, x ∈ (executeV f preds (fuel + 1) (calcSteps ordered succs targets size) c0).data.map (·.1) ↔
+        (x ∈ targets ∧ x ∈ ordered) ∨ x ∈ c0.data.map (·.1)) ∧
+    (∀ x, x ∈ (executeV f preds (fuel + 1) (calcSteps ordered succs targets size) c0).inputs ↔
+        (x ∈ targets ∧ x ∈ ordered) ∨ x ∈ c0.inputs) ∧
+    (∀ e, e ∈ (executeV f preds (fuel + 1) (calcSteps ordered succs targets size) c0).edges ↔ e ∈ c0.edges) ∧
+    (executeV f preds (fuel + 1) (calcSteps ordered succs targets size) c0).log = c0.log ++ ordered := by
+  have e := erase_executeV f preds (fuel + 1) (calcSteps ordered succs targets size) c0
+  have r := run_correct_from_any ordered succs preds targets size fuel c0.erase hz ht hd h0 h0d h0e hp
+  rw [← e] at r
+  exact r
+
+/-- **pasted_value_is_kept** value-pasting stores exactly the value it is given – every value, the
+distinguished `None` included: afterwards the element has an entry, and the entry is that value. -/
+theorem pasted_value_is_kept {V : Type} (n : Node) (v : V) (c : VCache V) :
+    (setValueV n v c).value n = some v ∧ n ∈ (setValueV n v c).data.map (·.1) ∧ n ∈ (setValueV n v c).inputs := by
+  refine ⟨setValueV_value n v c, ?_, ?_⟩ <;> simp [setValueV]
+
+/-! Non-vacuity with `None`s: modelx's own test model, values in `Option Nat`.  `valNone3`: `Cells2(2)` (= 3),
+an intermediate element that the LAST block reads and that has a precedent of its own, evaluates to `None`;
+`valNone4`: the target `Cells3(2)` (= 4) does. -/
+def valNone3 : Node → List (Option (Option Nat)) → Option Nat :=
+  fun n vs => if n = 3 then none else some (n + 10 * vs.length)
+
+def valNone4 : Node → List (Option (Option Nat)) → Option Nat :=
+  fun n vs => if n = 4 then none else some (n + 10 * vs.length)
+
+example : executeV valNone3 demoPreds 1 (calcSteps demoOrder demoSuccs [4] 2) {} =
+    { data := [(4, some 24)], inputs := [4], edges := [], log := [0, 1, 2, 3, 4] } := by decide
+
+/-- a target whose value is `None` HOLDS `None` at the end (an entry with value `none`, not no entry) -/
+example : executeV valNone4 demoPreds 1 (calcSteps demoOrder demoSuccs [4] 2) {} =
+      { data := [(4, none)], inputs := [4], edges := [], log := [0, 1, 2, 3, 4] } ∧
+    (executeV valNone4 demoPreds 1 (calcSteps demoOrder demoSuccs [4] 2) {}).value 4 = some none := by decide
+
+example : ∀ x, x ∈ (executeV valNone3 demoPreds 1 (calcSteps demoOrder demoSuccs [4] 2) {}).data.map (·.1) ↔
+    x ∈ [4] ∧ x ∈ demoOrder :=
+  (run_correct_any_values valNone3 demoOrder demoSuccs demoPreds [4] 2 0 (by decide) (by decide) (by decide)
+    (by decide)).1
+
+example : (executeV valNone3 demoPreds 1 (calcSteps demoOrder demoSuccs [4] 2) {}).erase =
+    (executeV (fun n _ => n) demoPreds 1 (calcSteps demoOrder demoSuccs [4] 2) {}).erase :=
+  held_elements_independent_of_values _ _ demoPreds 1 _ {} {} rfl
+
+example : (setValueV 3 (none : Option Nat) { data := [(2, some 7), (3, some 1)], edges := [(2, 3)] }).value 3 =
+    some none := (pasted_value_is_kept 3 none _).1
+
+/-- **paste_must_not_inspect_values** A `'paste'` step that reads the cache and skips the elements whose value is
+`None` ("nothing held, nothing to keep" – `executeSkipNone`, a model of a plausible optimisation, not of modelx)
+breaks the statement: (a) with `valNone4` the target ends up holding nothing; (b) with `valNone3` the intermediate
+`None` is cleared with its precedents in its own block and the last block computes it and its precedents a second
+time (on modelx's test model the final clear of `Cells1()` sweeps them away again; in general they are left
+behind – the harness' oracle sees both). -/
+theorem paste_must_not_inspect_values :
+    (¬ ∀ (f : Node → List (Option (Option Nat)) → Option Nat) (ordered : List Node) (succs preds : Node → List Node)
+        (targets : List Node) (size fuel : Nat), 1 ≤ size → isTopo succs ordered = true → ordered.Nodup →
+        (∀ n ∈ ordered, ∀ p ∈ preds n, p ∈ ordered ∧ n ∈ succs p) →
+        ∀ t ∈ targets, t ∈ ordered →
+          t ∈ (executeSkipNone Option.isNone f preds (fuel + 1) (calcSteps ordered succs targets size) {}).data.map (·.1)) ∧
+    (¬ ∀ (f : Node → List (Option (Option Nat)) → Option Nat) (ordered : List Node) (succs preds : Node → List Node)
+        (targets : List Node) (size fuel : Nat), 1 ≤ size → isTopo succs ordered = true → ordered.Nodup →
+        (∀ n ∈ ordered, ∀ p ∈ preds n, p ∈ ordered ∧ n ∈ succs p) →
+        (executeSkipNone Option.isNone f preds (fuel + 1) (calcSteps ordered succs targets size) {}).log = ordered) := by
+  constructor
+  · intro h
+    have := h valNone4 demoOrder demoSuccs demoPreds [4] 2 4 (by decide) (by decide) (by decide) (by decide)
+      4 (by decide) (by decide)
+    revert this; decide
+  · intro h
+    have := h valNone3 demoOrder demoSuccs demoPreds [4] 2 4 (by decide) (by decide) (by decide) (by decide)
+    revert this; decide
+
+/-- what the skipping paste does on `valNone3`: `3` is recomputed in the last block, with `2` and `1` -/
+example : executeSkipNone Option.isNone valNone3 demoPreds 5 (calcSteps demoOrder demoSuccs [4] 2) {} =
+    { data := [(4, some 24)], inputs := [4], edges := [], log := [0, 1, 2, 3, 4, 3, 2, 1] } := by decide
 
 /-- a plan that clears too early is noticed by the cache model: the log shows the recomputation -/
 example : (execute demoPreds 5 [.doCalc [0, 1], .doClear [0], .doCalc [4]] {}).log =
